@@ -6,6 +6,7 @@ import (
 	"fmt"
 	"io"
 	"net"
+	"os"
 	"sort"
 	"strings"
 	"testing"
@@ -995,6 +996,7 @@ func (w *World) crash(dmg []damage) {
 		time.Sleep(tickQuantum)
 		synctest.Wait()
 	}
+	w.drainClient(old)
 	w.sch.mu.Lock()
 	w.sch.drain = false
 	w.sch.mu.Unlock()
@@ -1261,6 +1263,29 @@ func (w *World) teardown() {
 		time.Sleep(5 * tickQuantum)
 		synctest.Wait()
 	}
+	w.drainClient(w.client)
+}
+
+// drainClient does what an application does after Close: it calls ReadSlices
+// until ErrClosed comes back. Only that releases requests still waiting for
+// their response, and a goroutine left waiting keeps its whole world alive.
+func (w *World) drainClient(c *mqtt.Client) {
+	if c == nil {
+		return
+	}
+	w.sch.spawnFree("drain-readslices", func() {
+		defer func() { recover() }()
+		for i := 0; i < 6; i++ {
+			_, _, err := c.ReadSlices()
+			if os.Getenv("VERIF_DEBUG_LEAK") != "" {
+				fmt.Fprintln(os.Stderr, "drain:", i, err)
+			}
+			if errors.Is(err, mqtt.ErrClosed) {
+				return
+			}
+		}
+	})
+	synctest.Wait() // no timers involved: a closed client answers at once
 }
 
 var _ = context.Background
